@@ -208,4 +208,401 @@ theorem points_to_dibits_eq (ps : List Nat) :
   | ok r => simp [ofR]
 
 
+/-! ### index loops over a pre-allocated array -/
+
+/-- the index list of a `for i in range(k, k + m)` loop -/
+def idxs (k m : Nat) : List Int := (List.range m).map (fun j => ((k + j : Nat) : Int))
+
+theorem idxs_zero (k : Nat) : idxs k 0 = [] := rfl
+theorem idxs_succ (k m : Nat) : idxs k (m + 1) = (k : Int) :: idxs (k + 1) m := by
+  unfold idxs
+  rw [List.range_succ_eq_map, List.map_cons, List.map_map]
+  simp only [Nat.add_zero, List.cons.injEq, true_and]
+  apply List.map_congr_left
+  intro j _
+  simp only [Function.comp]; congr 1; omega
+
+theorem range2_idxs (n : Nat) : range2 0 (n : Int) = idxs 0 n := by
+  unfold range2 idxs
+  simp
+
+theorem getI_mid (A B : List Int) (x : Int) : getI (A ++ x :: B) (A.length : Int) = .ok x := by
+  rw [getI_ofNat]; simp
+
+theorem getI_cast_mid (done ts : List Nat) (t : Nat) :
+    getI ((done ++ t :: ts).map (fun x : Nat => (x : Int))) (done.length : Int) = .ok (t : Int) := by
+  rw [getI_ofNat]; simp
+
+theorem getI_cast_end (done : List Nat) :
+    getI (done.map (fun x : Nat => (x : Int))) (done.length : Int) = .error .index := by
+  rw [getI_ofNat]; simp
+
+theorem setArr_mid (lo hi : Int) (A B : List Int) (x v : Int) (h : lo ≤ v ∧ v ≤ hi) :
+    PyArr.setArr lo hi (A ++ x :: B) v (A.length : Int) = .ok (A ++ v :: B) := by
+  unfold PyArr.setArr
+  rw [normIndex_ofNat]
+  have : A.length < (A ++ x :: B).length := by simp
+  simp [this, h]
+
+theorem zeros_succ (m : Nat) : PyArr.zeros ((m + 1 : Nat) : Int) = 0 :: PyArr.zeros (m : Int) := by
+  unfold PyArr.zeros; simp [List.replicate_succ]
+
+/-! ### `tribits_to_points` -/
+
+theorem trans_table : TRELLIS34_ENCODER_STATE_TRANSITION = transition := by decide +kernel
+theorem trans_range : ∀ p ∈ transition, p < 256 := by decide
+
+def t2pBody (tribits : List Int) (i : Int) (x : List Int × Int) : PyM (List Int × Int) :=
+  match x with
+  | (out, state) => do
+    let out ← PyArr.setArr 0 255 out (← getB TRELLIS34_ENCODER_STATE_TRANSITION (state * 8 + (← getI tribits i))) i
+    let state ← getI tribits i
+    pure (out, state)
+
+theorem t2p_loop : ∀ (ts done : List Nat) (A : List Int) (st : Nat), A.length = done.length →
+    (forEach (idxs done.length ts.length) (A ++ PyArr.zeros (ts.length : Int), (st : Int))
+        (t2pBody ((done ++ ts).map (fun x : Nat => (x : Int)))) >>= fun x => pure x.1)
+    = match emit st ts with
+      | .ok ps => .ok (A ++ ps.map (fun x : Nat => (x : Int)))
+      | .error e => .error (errOf e) := by
+  intro ts
+  induction ts with
+  | nil => intro done A st _; simp [idxs, PyArr.zeros, emit]
+  | cons t ts ih =>
+    intro done A st hA
+    rw [List.length_cons, idxs_succ, forEach_cons, zeros_succ, bind_assoc]
+    have hb : t2pBody ((done ++ t :: ts).map (fun x : Nat => (x : Int))) (done.length : Int)
+        (A ++ 0 :: PyArr.zeros (ts.length : Int), (st : Int))
+        = match transition[st * 8 + t]? with
+          | some p => .ok (A ++ (p : Int) :: PyArr.zeros (ts.length : Int), (t : Int))
+          | none => .error .index := by
+      unfold t2pBody
+      simp only [getI_cast_mid, ok_bind]
+      have e : (st : Int) * 8 + (t : Int) = ((st * 8 + t : Nat) : Int) := by push_cast; rfl
+      rw [e, getB_ofNat, trans_table]
+      cases hp : transition[st * 8 + t]? with
+      | none => rfl
+      | some p =>
+        have hr : p < 256 := trans_range p (List.mem_of_getElem? hp)
+        simp only [ok_bind]
+        rw [← hA, setArr_mid 0 255 A _ 0 (p : Int) (by omega)]
+        rfl
+    rw [hb]
+    unfold emit indexR
+    cases hp : transition[st * 8 + t]? with
+    | none => rfl
+    | some p =>
+      simp only [ok_bind]
+      have := ih (done ++ [t]) (A ++ [(p : Int)]) t (by simp [hA])
+      simp only [List.length_append, List.length_cons, List.length_nil, List.append_assoc, List.cons_append,
+        List.nil_append] at this
+      rw [this]
+      cases emit t ts with
+      | error e => rfl
+      | ok ps => simp
+
+/-- `tribits_to_points`, every array of naturals: the model's `tribitsToPoints` (`IndexError` of the table read included) -/
+theorem tribits_to_points_eq (ts : List Nat) :
+    tribits_to_points (ts.map (fun x : Nat => (x : Int))) = ofR (List.map (fun x : Nat => (x : Int))) (tribitsToPoints ts) := by
+  have h : tribits_to_points (ts.map (fun x : Nat => (x : Int)))
+      = (forEach (range2 0 (len (ts.map (fun x : Nat => (x : Int)))))
+          (PyArr.zeros (len (ts.map (fun x : Nat => (x : Int)))), (0 : Int))
+          (t2pBody (ts.map (fun x : Nat => (x : Int)))) >>= fun x => pure x.1) := by
+    unfold tribits_to_points t2pBody; rfl
+  rw [h]
+  simp only [len_eq, List.length_map, range2_idxs]
+  have := t2p_loop ts [] [] 0 rfl
+  simp only [List.nil_append, List.length_nil] at this
+  rw [show ((0 : Nat) : Int) = 0 from rfl] at this
+  rw [this]
+  unfold tribitsToPoints
+  cases emit 0 ts with
+  | error e => rfl
+  | ok ps => rfl
+
+
+
+/-! ### `interleave`, `deinterleave` -/
+
+/-- every item fits `array('b')` (what an array of dibits can hold) -/
+def isChars (d : List Int) : Prop := ∀ x ∈ d, (-128 : Int) ≤ x ∧ x ≤ 127
+
+theorem matrix_table : TRELLIS34_INTERLEAVE_MATRIX = interleaveMatrix := by decide +kernel
+theorem matrix_length : interleaveMatrix.length = 98 := by decide
+
+theorem getB_mid (A B : List Nat) (x : Nat) : getB (A ++ x :: B) (A.length : Int) = .ok (x : Int) := by
+  rw [getB_ofNat]; simp
+
+def intBody (d : List Int) (i : Int) (out : List Int) : PyM (List Int) := do
+  PyArr.setArr (-128) 127 out (← getI d (← getB TRELLIS34_INTERLEAVE_MATRIX i)) i
+
+theorem gatherR_length (d : List Int) : ∀ ms vs, gatherR d ms = .ok vs → vs.length = ms.length := by
+  intro ms
+  induction ms with
+  | nil => intro vs h; simp [gatherR] at h; subst h; rfl
+  | cons m ms ih =>
+    intro vs h
+    unfold gatherR indexR at h
+    cases hv : d[m]? with
+    | none => simp [hv] at h
+    | some v =>
+      simp only [hv] at h
+      cases hg : gatherR d ms with
+      | error e => simp [hg] at h
+      | ok r =>
+        simp only [hg, Except.ok.injEq] at h
+        subst h
+        simp [ih r hg]
+
+theorem int_loop (d : List Int) (hd : isChars d) : ∀ (ms doneM : List Nat) (A B : List Int),
+    TRELLIS34_INTERLEAVE_MATRIX = doneM ++ ms → A.length = doneM.length → B.length = ms.length →
+    forEach (idxs doneM.length ms.length) (A ++ B) (intBody d)
+    = match gatherR d ms with
+      | .ok vs => .ok (A ++ vs)
+      | .error e => .error (errOf e) := by
+  intro ms
+  induction ms with
+  | nil =>
+    intro doneM A B _ _ hB
+    have : B = [] := List.eq_nil_of_length_eq_zero hB
+    subst this
+    simp [idxs, gatherR]
+  | cons m ms ih =>
+    intro doneM A B hM hA hB
+    obtain ⟨b, B', rfl⟩ : ∃ b B', B = b :: B' := by
+      cases B with
+      | nil => simp at hB
+      | cons b B' => exact ⟨b, B', rfl⟩
+    rw [List.length_cons, idxs_succ, forEach_cons]
+    have hb : intBody d (doneM.length : Int) (A ++ b :: B')
+        = match d[m]? with
+          | some v => .ok (A ++ v :: B')
+          | none => .error .index := by
+      unfold intBody
+      rw [hM, getB_mid]
+      simp only [ok_bind, getI_ofNat]
+      cases hv : d[m]? with
+      | none => rfl
+      | some v =>
+        simp only [ok_bind]
+        rw [← hA, setArr_mid (-128) 127 A B' b v (hd v (List.mem_of_getElem? hv))]
+    rw [hb]
+    unfold gatherR indexR
+    cases hv : d[m]? with
+    | none => rfl
+    | some v =>
+      simp only [ok_bind]
+      have := ih (doneM ++ [m]) (A ++ [v]) B' (by rw [hM]; simp) (by simp [hA]) (by simpa using hB)
+      simp only [List.length_append, List.length_cons, List.length_nil, List.append_assoc, List.cons_append,
+        List.nil_append] at this
+      rw [this]
+      cases gatherR d ms with
+      | error e => rfl
+      | ok r => simp
+
+/-- `interleave`, every array of dibit-range items: the model's `interleave` (`IndexError` for a short array included) -/
+theorem interleave_eq (d : List Int) (hd : isChars d) : Transl.Trellis.interleave d = ofR id (Dmr.Trellis.interleave d) := by
+  have h : Transl.Trellis.interleave d = forEach (range2 0 (len TRELLIS34_INTERLEAVE_MATRIX)) (PyArr.zeros 98) (intBody d) := by
+    unfold Transl.Trellis.interleave intBody; rfl
+  rw [h]
+  have hl : len TRELLIS34_INTERLEAVE_MATRIX = ((98 : Nat) : Int) := by rw [matrix_table, len_eq, matrix_length]
+  rw [hl, range2_idxs]
+  have := int_loop d hd TRELLIS34_INTERLEAVE_MATRIX [] [] (PyArr.zeros 98) rfl rfl
+    (by rw [matrix_table, matrix_length]; rfl)
+  simp only [List.nil_append, List.length_nil] at this
+  rw [matrix_table, matrix_length] at this
+  rw [this]
+  unfold Dmr.Trellis.interleave
+  cases hg : gatherR d interleaveMatrix with
+  | error e => rfl
+  | ok vs =>
+    have hvl := gatherR_length d _ _ hg
+    rw [matrix_length] at hvl
+    simp [hvl, ofR]
+
+
+def deintBody (original : List Int) (i : Int) (out : List Int) : PyM (List Int) := do
+  let v ← getI original i
+  PyArr.setArr (-128) 127 out v (← getB TRELLIS34_INTERLEAVE_MATRIX i)
+
+theorem getI_mid' (A B : List Int) (x : Int) (k : Nat) (h : k = A.length) : getI (A ++ x :: B) (k : Int) = .ok x := by
+  subst h; exact getI_mid A B x
+
+theorem deint_loop (n : Nat) : ∀ (ms doneM : List Nat) (vs doneV out : List Int),
+    TRELLIS34_INTERLEAVE_MATRIX = doneM ++ ms → doneM.length = doneV.length → out.length = n → isChars (doneV ++ vs) →
+    forEach (idxs doneM.length ms.length) out (deintBody (doneV ++ vs))
+    = ofR id (scatter n ms vs out) := by
+  intro ms
+  induction ms with
+  | nil => intro doneM vs doneV out _ _ _ _; simp [idxs, scatter, ofR]
+  | cons m ms ih =>
+    intro doneM vs doneV out hM hL hn hc
+    rw [List.length_cons, idxs_succ, forEach_cons]
+    cases vs with
+    | nil =>
+      have : deintBody (doneV ++ []) (doneM.length : Int) out = .error .index := by
+        unfold deintBody
+        rw [hL, List.append_nil, getI_ofNat]
+        simp
+      rw [this]; rfl
+    | cons v vs =>
+      have hv : (-128 : Int) ≤ v ∧ v ≤ 127 := hc v (by simp)
+      have hb : deintBody (doneV ++ v :: vs) (doneM.length : Int) out
+          = if m < n then .ok (out.set m v) else .error .index := by
+        unfold deintBody
+        rw [getI_mid' doneV vs v _ hL]
+        simp only [ok_bind]
+        rw [hM, getB_mid]
+        simp only [ok_bind, PyArr.setArr, normIndex_ofNat, hn]
+        by_cases hm : m < n <;> simp [hm, hv]
+      rw [hb]
+      unfold scatter
+      by_cases hm : m < n
+      · simp only [hm, if_true, ok_bind]
+        have := ih (doneM ++ [m]) vs (doneV ++ [v]) (out.set m v) (by rw [hM]; simp) (by simp [hL]) (by simp [hn])
+          (by simpa using hc)
+        simp only [List.length_append, List.length_cons, List.length_nil, List.append_assoc, List.cons_append,
+          List.nil_append] at this
+        exact this
+      · simp only [hm, if_false]; rfl
+
+/-- `deinterleave`, every array of dibit-range items: the model's `deinterleave` (`IndexError`s included) -/
+theorem deinterleave_eq (d : List Int) (hd : isChars d) :
+    Transl.Trellis.deinterleave d = ofR id (Dmr.Trellis.deinterleave d) := by
+  have h : Transl.Trellis.deinterleave d
+      = forEach (range2 0 (len TRELLIS34_INTERLEAVE_MATRIX)) (PyArr.zeros (len d)) (deintBody d) := by
+    unfold Transl.Trellis.deinterleave deintBody; rfl
+  rw [h]
+  have hl : len TRELLIS34_INTERLEAVE_MATRIX = ((98 : Nat) : Int) := by rw [matrix_table, len_eq, matrix_length]
+  rw [hl, range2_idxs]
+  have := deint_loop d.length TRELLIS34_INTERLEAVE_MATRIX [] d [] (PyArr.zeros (len d)) rfl rfl
+    (by simp [PyArr.zeros]) (by simpa using hd)
+  simp only [List.nil_append, List.length_nil] at this
+  rw [matrix_table, matrix_length] at this
+  rw [this]
+  unfold Dmr.Trellis.deinterleave
+  simp [PyArr.zeros]
+
+
+
+/-! ### `dibits_to_bits` -/
+
+theorem drev_table : TRELLIS34_DIBITS_REVERSE = dibitsReverse.map (fun e => (e.1, (ofBool e.2.1, ofBool e.2.2))) := by
+  decide +kernel
+
+theorem lookup_mapval {κ ν μ : Type} [BEq κ] (f : ν → μ) (tbl : List (κ × ν)) (k : κ) :
+    (tbl.map (fun e => (e.1, f e.2))).lookup k = (tbl.lookup k).map f := by
+  induction tbl with
+  | nil => rfl
+  | cons e t ih =>
+    obtain ⟨a, w⟩ := e
+    simp only [List.map_cons, List.lookup_cons, ih]
+    cases (k == a) <;> rfl
+
+theorem bitOfInt_ofBool (b : Bool) : PyBits.bitOfInt (ofBool b) = .ok b := by cases b <;> rfl
+
+def d2bBody (dibit : Int) (out : List Bool) : PyM (List Bool) := do
+  let out ← Py.forEach ((fun p => [p.1, p.2]) (← PyArr.dictGet TRELLIS34_DIBITS_REVERSE dibit)) out
+    fun bit out => do pure (out ++ [(← PyBits.bitOfInt bit)])
+  pure out
+
+theorem d2bBody_eq (d : Int) (acc : List Bool) : d2bBody d acc =
+    match dibitsReverse.lookup d with
+    | some v => .ok (acc ++ [v.1, v.2])
+    | none => .error (.other "KeyError") := by
+  unfold d2bBody PyArr.dictGet
+  rw [drev_table, lookup_mapval (fun v : Bool × Bool => (ofBool v.1, ofBool v.2))]
+  cases dibitsReverse.lookup d with
+  | none => rfl
+  | some v => simp [bitOfInt_ofBool]
+
+theorem d2b_loop (ds : List Int) : ∀ acc : List Bool,
+    Py.forEach ds acc d2bBody = match dibitsToBits ds with
+      | .ok r => .ok (acc ++ r)
+      | .error e => .error (errOf e) := by
+  induction ds with
+  | nil => intro acc; simp [dibitsToBits]
+  | cons d ds ih =>
+    intro acc
+    rw [forEach_cons, d2bBody_eq]
+    unfold dibitsToBits lookupR
+    cases dibitsReverse.lookup d with
+    | none => rfl
+    | some v =>
+      obtain ⟨a, b⟩ := v
+      simp only [ok_bind]
+      rw [ih]
+      cases dibitsToBits ds with
+      | error e => rfl
+      | ok r => simp
+
+/-- `dibits_to_bits`, every array: the model's `dibitsToBits`, `KeyError` included -/
+theorem dibits_to_bits_eq (ds : List Int) : dibits_to_bits ds = ofR id (dibitsToBits ds) := by
+  have : dibits_to_bits ds = Py.forEach ds [] d2bBody := by
+    unfold dibits_to_bits d2bBody; rfl
+  rw [this, d2b_loop]
+  cases dibitsToBits ds with
+  | error e => rfl
+  | ok r => simp [ofR]
+
+
+
+/-! ### `encode` -/
+
+theorem pointsToDibits_chars : ∀ (ps : List Nat) (ds : List Int), pointsToDibits ps = .ok ds → isChars ds := by
+  intro ps
+  induction ps with
+  | nil => intro ds h; simp [pointsToDibits] at h; subst h; intro x hx; simp at hx
+  | cons p ps ih =>
+    intro ds h
+    unfold pointsToDibits lookupR at h
+    cases hl : constellationReverse.lookup p with
+    | none => simp [hl] at h
+    | some v =>
+      obtain ⟨a, b⟩ := v
+      simp only [hl] at h
+      cases hr : pointsToDibits ps with
+      | error e => simp [hr] at h
+      | ok r =>
+        simp only [hr, Except.ok.injEq] at h
+        subst h
+        have hab := rev_range _ (lookup_mem _ _ _ hl)
+        intro x hx
+        simp only [List.mem_cons] at hx
+        rcases hx with rfl | rfl | hx
+        · exact ⟨hab.1, hab.2.1⟩
+        · exact ⟨hab.2.2.1, hab.2.2.2⟩
+        · exact ih r hr x hx
+
+/-- `encode(bitarray)`, every bit string: the model's `encode` -/
+theorem encode_eq (b : Bits) : Transl.Trellis.encode b = ofR id (Dmr.Trellis.encode b) := by
+  unfold Transl.Trellis.encode Dmr.Trellis.encode encodeEndian
+  rw [assert_bind]
+  by_cases hl : b.length < 144
+  · have hc : ¬ (decide (len b ≥ 144) = true) := by rw [decide_eq_true_eq, len_eq]; omega
+    rw [if_neg hc, if_pos hl]; rfl
+  · have hc : decide (len b ≥ 144) = true := by rw [decide_eq_true_eq, len_eq]; omega
+    rw [if_pos hc, if_neg hl]
+    simp only [slice_none_lit, bits_to_tribits_eq, ok_bind, tribits_to_points_eq]
+    cases hp : tribitsToPoints (bitsToTribits false (List.take 144 b)) with
+    | error e => rfl
+    | ok ps =>
+      simp only [ofR, ok_bind, points_to_dibits_eq]
+      cases hd : pointsToDibits ps with
+      | error e => rfl
+      | ok ds =>
+        simp only [ofR, id, ok_bind, interleave_eq ds (pointsToDibits_chars ps ds hd)]
+        cases hi : Dmr.Trellis.interleave ds with
+        | error e => rfl
+        | ok ids =>
+          simp only [ofR, id, ok_bind, dibits_to_bits_eq, pure_eq_ok]
+
+/-- `encode(bytes)`: the model's `encodeBytes` -/
+theorem encode_bytes_eq (d : Bytes) : Transl.Trellis.encode_bytes d = ofR id (Dmr.Trellis.encodeBytes d) := by
+  have : Transl.Trellis.encode_bytes d = Transl.Trellis.encode (bytesToBits d) := by
+    unfold Transl.Trellis.encode_bytes Transl.Trellis.encode PyBits.frombytes
+    simp only [List.nil_append]
+  rw [this, encode_eq]; rfl
+
+
 end Dmr.Transl.Trellis
